@@ -2,8 +2,7 @@
       libwallet/src/internal/tx.rs      payment_proof_message, create_payment_proof_signature,
                                         verify_slate_payment_proof, the proof part of update_stored_tx
       libwallet/src/internal/selection.rs   the proof part of lock_tx_context (StoredProofInfo)
-      libwallet/src/api_impl/foreign.rs     the proof part of receive_tx and the late-lock
-                                            comparison with the requested address (C11 fix)
+      libwallet/src/api_impl/foreign.rs     the proof part of receive_tx
       libwallet/src/api_impl/owner.rs   retrieve_payment_proof, verify_payment_proof
     over ideal ed25519 signatures (Crypto.v [ideal_sig]). No proofs in this file.
     Proto.v plugs these functions into the model of finalize_tx. *)
@@ -52,26 +51,23 @@ Section PayProof.
       end
     end.
 
-  (** foreign::finalize_tx, late-lock branch (after the C11 fix): the reply must name the
-      recipient address the sender asked for when it initiated the transaction *)
-  Definition late_lock_check (requested : option pk) (p : option payinfo) : result unit :=
-    match requested with
-    | None => Ok tt
-    | Some a =>
-      match p with
-      | Some p => if pk_eqb (pi_receiver p) a then Ok tt else Err EPaymentProof
-      | None => Err EPaymentProof
-      end
-    end.
-
   (** tx::verify_slate_payment_proof. [entries] are the payment_proof fields of the log
-      entries with this slate id under the active account, oldest first; [amount] and
-      [excess] are slate.amount (restored from the context) and slate.calc_excess(). *)
+      entries with this slate id under the context's account, oldest first; [idx] and
+      [requested] are what the context kept from initiation (derivation index of the sender
+      address, recipient address asked for — [requested] is None for contexts written before
+      the C11 fix); [amount] and [excess] are slate.amount (restored from the context) and
+      slate.calc_excess(). *)
   Definition verify_slate_payment_proof (entries : list (option sproof)) (idx : option N)
-             (parent : N) (p : option payinfo) (amount : N) (excess : commit) : result unit :=
+             (requested : option pk) (parent : N) (p : option payinfo) (amount : N)
+             (excess : commit) : result unit :=
     match entries with
     | [] => Err EPaymentProof
     | orig :: _ =>
+      (* what was asked for at initiation: the log entry may have been written from the reply *)
+      let* _ := (match idx, p with Some _, None => Err EPaymentProof | _, _ => Ok tt end) in
+      let* _ := (match requested, p with
+                 | Some a, Some p => if pk_eqb (pi_receiver p) a then Ok tt else Err EPaymentProof
+                 | _, _ => Ok tt end) in
       match p with
       | None => match orig with Some _ => Err EPaymentProof | None => Ok tt end
       | Some p =>
